@@ -357,4 +357,20 @@ def mulEvalF (g : Graph) (ev : Ev) (m : Mod) (first : Bool) : Ev := fun s o =>
   let z := if m.zero && first then zeroPairs s o else []
   z ++ dedupInto z (mulRun g ev m s o).1
 
+/-! ### follow-up to round g — the shapes a path triple pattern takes inside `evalBGP` (evaluate.py) -/
+
+/-- `?x path ?x` (the SAME variable at both ends).  Unbound: `ctx.graph.triples((None, path, None))`, `c[s] = ss`, then
+    `c[o] = so` raises `AlreadyBound` (→ `continue`) unless `so == ss`.  Pre-bound to `a` (initBindings / VALUES pushed in /
+    an earlier pattern): both ends are given. -/
+def bgpSame (g : Graph) (p : Path) : Option Term → List Pair
+  | none => (evalPath g p none none).filter (fun r => r.1 == r.2)
+  | some a => evalPath g p (some a) (some a)
+
+/-- `?s ?pp ?zz . ?s path ?o` with the plain pattern evaluated first: `?s` is bound when `evalBGP` reaches the path -/
+def bgpSubjBefore (g : Graph) (p : Path) : List Pair := g.flatMap (fun t => evalPath g p (some t.1) none)
+
+/-- `?s path ?o . ?zz ?pp ?o` with the path evaluated first (both ends free), then `?o` checked by the plain pattern -/
+def bgpObjAfter (g : Graph) (p : Path) : List Pair :=
+  (evalPath g p none none).filter (fun r => g.any (fun t => t.2.2 == r.2))
+
 end RV.C11
